@@ -44,7 +44,7 @@ func FuzzDebug(f *testing.F) {
 		c := Case{Prog: libexec.Prog{Unlock: unlock, Lock: lock, Flags: flags & nonSigMask,
 			Ctx: libexec.TxCtx{Version: 2, LockTime: locktime, Seq: seq, Amount: 1}, Level: "fuzz"}, Ref: true}
 		m := c.Ctx.Model(c.Unlock, c.Lock)
-		if r := interp.VerifyScript(c.Unlock, c.Lock, interp.Flags(c.Flags), interp.TxChecker{Tx: m, Idx: 0, Amount: 1}, false, flim); r.BudgetHit {
+		if r := interp.VerifyScript(c.Unlock, c.Lock, interp.Flags(c.Flags), interp.TxChecker{Tx: m, Idx: c.Ctx.Index(), Amount: 1}, false, flim); r.BudgetHit {
 			t.Skip()
 		}
 		pbt.FuzzCheck(t, "C19", "lifecycle", check, c)
